@@ -683,9 +683,12 @@ def units_C15(tier, seed):
         cfg = {k: v for k, v in u['cfg'].items() if k != 'loop_cap'}     # -O0 code has other loop shapes
         if th or i % 3 == 0:
             U.append(dict(u, name=f'c15_{base}.san', flavour='san', diff=False, cfg=cfg))
-        if th or i % 9 == 1:
+        # -O0 code of these kernels forks per bit of a symbolic coordinate (Hilbert rotation) or per comparison of a deep
+        # stack: beyond the path cap, so they are checked in the -O1 sanitizer flavour only
+        no_o0 = any(base.startswith(x) for x in ('c01_hilbert', 'c14_hilbert_curve', 'c02_stack_clamp', 'c01_api_hilbert', 'c05_conv_hilbert', 'c05_convfixed'))
+        if (th or i % 9 == 1) and not no_o0:
             U.append(dict(u, name=f'c15_{base}.dsan', flavour='dsan', diff=False, weight=u['weight'] * 5, cfg=cfg))
-        if (th or i % 6 == 2) and u['weight'] <= 40 and not u['name'].startswith('c12_'):
+        if (th or i % 6 == 2) and u['weight'] <= 40 and not u['name'].startswith('c12_') and not no_o0:
             U.append(dict(u, name=f'c15_{base}.equiv', flavour='rel', product='dbg', diff=False, weight=u['weight'] * 6, max_pairs=40000, cfg=cfg))
     return U
 
